@@ -40,4 +40,5 @@ def tasks(tier, seed=0):
     out = [task(M, "ob_replacement", f"replacement.{m}/equiv+inv", ["C13"] + (["C14"] if "copy" in m else []), method=m, tier=tier) for m in replfront.METHODS]
     out += [task("vf.contracts.hybrid", "ob_hybrid", f"hybrid.{m}/dispatch+inv", ["C13"] + (["C15"] if m.split("[")[0] in ("combine", "merge", "split") else []),
                  method=m, tier=tier) for m in hybrid.METHODS]
+    out.append(task("vf.contracts.canaries", "ob_canaries", "harness.canaries/wrong-methods-are-noticed", ["C03", "C11", "C12", "C13", "C15"], tier=tier))
     return out + _rtc.rtc_tasks("C13", tier, seed)
